@@ -137,6 +137,8 @@ func init() {
 	registry.Checks["C11"] = mirrorCheck("C11", "C11", ruleCommon+"per-consumer monitors over everything the gossip and state-machine consumers received (strictly increasing versions, growing proposals and signer sets), currency after the final drain, nil-round precommits delivered; non-trivial as C01")
 }
 
+const ruleBare = " PLUS the bare state machine (real tmstate.StateMachine and consensus manager, the explorer playing the mirror on the round-entrance and round-view channels): benign 36-event script over 3 heights incl. a nil round with every single deviation from a 68-event alphabet (views growing by any vote or proposal for the current, next and next-but-one round, jump-ahead signals, grown views of the round or height already left, committed-header answers, height-committed signal, every strategy answer, timers, driver, late proposal, restart), thorough: pairs within 3 positions, plus BFS from 5 script prefixes with canonical-state dedup; the same trace monitors run; "
+
 const ruleNode = "executions = one complete real engine (tmengine.New: mirror + state machine + consensus manager) in a synctest bubble with the harness as network, consensus strategy (every call blocks until released), round timer, driver and gossip consumer; benign 54-event script over 6 heights (validator sets change every height from 3, own key absent at height 5, one nil round by proposal timeout) with every single deviation (insert any alphabet event at any position, drop any scripted event, replace any strategy answer), in the thorough tier pairs of core deviations over the first 3 heights, plus BFS with canonical-state dedup from 4 script prefixes; trace monitors run at every quiescent point; "
 
 func nodeCheck(prop string, props string, rule string, withMirror bool) func(c *vx.Ctx) {
@@ -154,6 +156,10 @@ func nodeCheck(prop string, props string, rule string, withMirror bool) func(c *
 			if n%997 == 1 {
 				c.Sample(map[string]any{"harness": j.Exec, "deviations_or_events": j.Hist, "mode": j.Args["mode"], "seed_prefix": j.Args["seed"], "outcome": r.Outcome})
 			}
+		}
+		if !withMirror {
+			// C02, C08, C12: first the state machine alone, with the explorer as its mirror (smbare.go).
+			exploreBare(c, props, maxDev, depth+1, st, each)
 		}
 		exploreNode(c, props, maxDev, depth, st, each)
 		if withMirror {
@@ -177,8 +183,18 @@ func nodeCheck(prop string, props string, rule string, withMirror bool) func(c *
 
 func init() {
 	registry.Checks["ALLN"] = nodeCheck("ALLN", allProps, ruleNode, false)
-	registry.Checks["C02"] = nodeCheck("C02", "C02", ruleNode+"the signer wrapper records every signed content (at most one distinct content per kind/height/round across restarts), and the round-store wrapper checks at the instant the mirror persists a vote of this validator that the action store already holds it; non-trivial = execution in which the validator signed something or a header was committed, distinct by final canonical state", false)
-	registry.Checks["C08"] = nodeCheck("C08", "C08", ruleNode+"monitors: finalize only after a deliverable precommit majority for that block/round or a committed header; next height only after the finalization was stored; next round only with a nil quorum, full precommit presence, fired precommit delay or later-round minority; one Choose, no Consider/Choose after the prevote was chosen, one Decide and a Decide whenever one is due; positions strictly forward; calls and votes for the current round only, vote targets equal the strategy's answers; non-trivial as C02", false)
+	registry.Checks["SMB"] = func(c *vx.Ctx) {
+		c.Level = "model_checking"
+		c.Rule = "debug: bare state machine exploration only"
+		st := &exploreStats{keys: map[string]struct{}{}}
+		d, depth := 1, 2
+		if !c.Quick() {
+			d, depth = 2, 3
+		}
+		exploreBare(c, allProps, d, depth, st, nil)
+	}
+	registry.Checks["C02"] = nodeCheck("C02", "C02", ruleNode+ruleBare+"the signer wrapper records every signed content (at most one distinct content per kind/height/round across restarts), and the round-store wrapper checks at the instant the mirror persists a vote of this validator that the action store already holds it; non-trivial = execution in which the validator signed something or a header was committed, distinct by final canonical state", false)
+	registry.Checks["C08"] = nodeCheck("C08", "C08", ruleNode+ruleBare+"monitors: finalize only after a deliverable precommit majority for that block/round or a committed header; next height only after the finalization was stored; next round only with a nil quorum, full precommit presence, fired precommit delay or later-round minority; one Choose, no Consider/Choose after the prevote was chosen, one Decide and a Decide whenever one is due; positions strictly forward; calls and votes for the current round only, vote targets equal the strategy's answers; non-trivial as C02", false)
 	registry.Checks["C12"] = func(c *vx.Ctx) {
 		c12a(c)
 		checkTimerPrograms(c)
@@ -188,7 +204,7 @@ func init() {
 var c12a func(c *vx.Ctx)
 
 func init() {
-	c12a = nodeCheck("C12", "C12", ruleNode+"at every quiescent point: at most one step timer outstanding, it belongs to the state machine's current round and matches its step, a proposal timer is armed whenever the machine still awaits a proposal; (part b, the production StandardRoundTimer under all interleavings, is exploreTimer) non-trivial as C02", false)
+	c12a = nodeCheck("C12", "C12", ruleNode+ruleBare+"at every quiescent point: at most one step timer outstanding, it belongs to the state machine's current round and matches its step, a proposal timer is armed whenever the machine still awaits a proposal; (part b, the production StandardRoundTimer under all interleavings, is exploreTimer) non-trivial as C02", false)
 }
 
 func init() {
